@@ -51,8 +51,8 @@ Init ==
    /\ now = 0
    /\ pc = [th \in Threads |-> "next"] /\ ip = [th \in Threads |-> 1] /\ loc = [th \in Threads |-> Loc0]
    /\ wres = [th \in Threads |-> "none"] /\ sres = [th \in Threads |-> {}] /\ ires = [th \in Threads |-> 0]
-   /\ err = [th \in Threads |-> ""]
-   /\ ran = <<>> /\ gdrop = {} /\ queuedEver = {} /\ gQs = IF InitEv = <<>> THEN 0 ELSE -1
+   /\ err = [th \in Threads |-> <<>>]
+   /\ ran = <<>> /\ gdrop = {} /\ queuedEver = {} /\ gQs = IF DOMAIN InitEv = {} THEN 0 ELSE -1
    /\ g = [th \in Threads |-> G0]
 
 (* ------------------------------------------------------------------ helpers *)
@@ -71,7 +71,7 @@ GhostKeep == UNCHANGED <<ran, gdrop, queuedEver, gDl>>
 
 (* an exception leaves the call (the readers hold no lock as the code stands; with FixLock the `with` releases) *)
 Raise(th, what) ==
-   /\ err' = [err EXCEPT ![th] = what]
+   /\ err' = [err EXCEPT ![th] = Append(@, what)]
    /\ IF loc[th].holds THEN Release(th) ELSE UNCHANGED <<lockOwner, lockDepth>>
    /\ EndOp(th)
    /\ UNCHANGED <<events, flag, actions, evName, evDl, now, wres, sres, ires>> /\ GhostKeep
@@ -90,7 +90,7 @@ Next_(th) ==
            [] o.op = "deadline" -> Goto(th, IF FixLock THEN "r_acq" ELSE "d99") /\ SetLoc(th, [Loc0 EXCEPT !.cont = "d_ret"])
            [] o.op = "wfor"     -> Goto(th, IF FixLock THEN "r_acq" ELSE "f117") /\ SetLoc(th, Loc0)
            [] o.op = "isset"    -> Goto(th, "i50") /\ SetLoc(th, [Loc0 EXCEPT !.e = o.e])
-           [] o.op = "sleep"    -> Goto(th, "sleep") /\ SetLoc(th, [Loc0 EXCEPT !.until = now + o.to])
+           [] o.op = "sleep"    -> Goto(th, "sleep") /\ SetLoc(th, [Loc0 EXCEPT !.until = Min(now + o.to, MaxTime)])
    /\ UNCHANGED <<ip, now>> /\ Keep(obj) /\ ResKeep /\ GhostKeep
 Finish(th) == /\ pc[th] = "next" /\ OpOf(th).op = "none" /\ Goto(th, "done")
               /\ UNCHANGED <<ip, loc, now>> /\ Keep(obj) /\ ResKeep /\ GhostKeep
@@ -273,7 +273,7 @@ Ext(b, o) ==
 GhostUpd ==
    /\ g' = [th \in Threads |->
               LET base == IF pc[th] = "next" THEN [G0 EXCEPT !.bvt = now] ELSE g[th] IN
-              IF pc'[th] \notin {"next", "done"} THEN Ext(base, OpOf(th)) ELSE base]
+              IF pc'[th] \notin {"next", "done"} THEN Ext(base, OpOf(th)) ELSE G0]
    /\ gQs' = IF QuietAt(events', actions') THEN (IF QuietAt(events, actions) /\ gQs >= 0 THEN gQs ELSE now') ELSE -1
 
 Next == (Tick \/ \E th \in Threads : Step(th)) /\ GhostUpd
@@ -286,22 +286,22 @@ Completes(th, opname) == pc[th] \notin {"next", "done"} /\ pc'[th] = "next" /\ i
                          /\ err'[th] = err[th]
 
 (* no public call ever raises *)
-NoError == \A th \in Threads : err[th] = ""
+NoError == \A th \in Threads : err[th] = <<>>
 (* wait() == True: at some moment of the call nothing was outstanding ... *)
-WaitTrueEmpty == [][\A th \in Threads : (Completes(th, "wait") /\ wres'[th] = "T") => g'[th].sawEmpty \/ g[th].sawEmpty]_vars
+WaitTrueEmpty == [][\A th \in Threads : (Completes(th, "wait") /\ wres'[th] = "T") => g[th].sawEmpty]_vars
 (* ... and the queued actions had been run ("executed after the last event is triggered, and before the *)
 (* multievent is set")                                                                                    *)
 WaitTrueQuiet == [][\A th \in Threads : (Completes(th, "wait") /\ wres'[th] = "T") => g[th].sawQuiet]_vars
 (* wait() == False: not before the limit = min(time-out of the caller, largest deadline of the events *)
-(* outstanding at some moment of the call); and not when everything has been set for some time          *)
+(* outstanding at some moment of the call)                                                              *)
 WaitFalseNotEarly == [][\A th \in Threads : (Completes(th, "wait") /\ wres'[th] = "F") =>
-                          /\ \E lo \in g[th].los : lo # Inf /\ lo <= now
-                          /\ ~(QuietAt(events, actions) /\ gQs >= 0 /\ gQs < now /\ LockFree)]_vars
-(* a blocked wait ends at the limit at the latest *)
-WaitNotLate == \A th \in Threads : pc[th] = "w_blk" => \E hi \in g[th].his : loc[th].until <= hi
+                          \E lo \in g[th].los : lo # Inf /\ lo <= now]_vars
+(* a wait that blocks will end at the limit at the latest (+ the time the thread itself took to get there) *)
+WaitNotLate == [][\A th \in Threads : (pc[th] = "w114" /\ pc'[th] = "w_blk") =>
+                    \E hi \in g[th].his : loc'[th].until <= Plus(hi, now - g[th].bvt)]_vars
 (* no lost wake-up: whoever is blocked while nothing is outstanding has been notified *)
 NoLostWakeup == \A th \in Threads : (pc[th] = "w_blk" /\ LockFree /\ events = {}) => loc[th].notified
-FlagConsistent == LockFree => ((flag => events = {}) /\ (events = {} /\ gQs # 0 => flag \/ ran = <<>> /\ FALSE \/ flag))
+FlagConsistent == LockFree => ((flag => events = {}) /\ ((events = {} /\ DOMAIN InitEv # {}) => flag))
 (* waiting_for() / deadline(): one consistent view *)
 WaitingForExact == [][\A th \in Threads : Completes(th, "wfor") => sres'[th] \in g[th].nsets]_vars
 DeadlineExact == [][\A th \in Threads : Completes(th, "deadline") => ires'[th] \in g[th].dcs]_vars
@@ -311,17 +311,17 @@ IsSetRight == [][\A th \in Threads : Completes(th, "isset") => (wres'[th] = "T")
 Count(s, a) == Cardinality({j \in DOMAIN s : s[j] = a})
 ActionsAtMostOnce == \A a \in queuedEver : Count(ran, a) <= 1
 ActionsOnlyWhenSet == [][ran' # ran => events = {}]_vars
-NoActionLeft == (LockFree /\ events = {} /\ \A th \in Threads : pc[th] \notin {"q138", "q139", "s80", "s81", "s82", "s85", "s89", "s90", "s_rel", "q_rel"})
-                   => actions = <<>>
+NoActionLeft == (LockFree /\ Locked /\ events = {}) => actions = <<>>
 AllDone == \A th \in Threads : pc[th] = "done"
-ActionsExactlyOnce == AllDone => \A a \in queuedEver : \/ Count(ran, a) = 1 /\ a \notin Range(actions)
-                                                        \/ Count(ran, a) = 0 /\ a \in gdrop /\ a \notin Range(actions)
-                                                        \/ Count(ran, a) = 0 /\ a \in Range(actions) /\ events # {}
+ActionsExactlyOnce ==
+   AllDone => \A a \in queuedEver :
+                 \/ (Count(ran, a) = 1 /\ a \notin Range(actions))
+                 \/ (Count(ran, a) = 0 /\ a \in gdrop /\ a \notin Range(actions))
+                 \/ (Count(ran, a) = 0 /\ a \in Range(actions) /\ events # {})
 (* liveness (FairSpec): every thread gets through its script when all events end up set *)
 Termination == <>AllDone
 
 (* ------------------------------------------------------------------ scenarios *)
-T3 == {"a", "b", "w"}
 NoEv == <<>>
 (* the server's start: triggers created beforehand with the default time-out, poll threads fire them, the main *)
 (* thread waits without a time-out of its own and then asks who is missing                                     *)
